@@ -1815,15 +1815,24 @@ class _FoldConst(ast.NodeTransformer):
         if not isinstance(node, ast.Call):
             return node
         # next((E for ROW in <literal table> if C), D): the first row whose test holds, written out as a chain of conditional expressions
-        if isinstance(node.func, ast.Name) and node.func.id == "next" and len(node.args) == 2 and not node.keywords and isinstance(node.args[0], ast.GeneratorExp) \
+        if isinstance(node.func, ast.Name) and node.func.id == "isinstance" and len(node.args) == 2 and not node.keywords and u(node.args[1]) == "object" \
+                and norm.is_pure(node.args[0], _PURE_EXT):
+            return ast.copy_location(ast.Constant(True), node)        # everything is an object
+        if isinstance(node.func, ast.Name) and node.func.id == "next" and len(node.args) in (1, 2) and not node.keywords and isinstance(node.args[0], ast.GeneratorExp) \
                 and len(node.args[0].generators) == 1 and not node.args[0].generators[0].is_async:
             g = node.args[0].generators[0]
-            if isinstance(g.iter, (ast.Tuple, ast.List)) and 1 <= len(g.iter.elts) <= 8 and _table_display(g.iter) and norm.is_pure(node.args[1], _PURE_EXT):
+            orig = node
+            if len(node.args) == 1 and isinstance(g.iter, (ast.Tuple, ast.List)):
+                # no default: exhausted means StopIteration
+                node = copy.copy(node)
+                node.args = [node.args[0], ast.Call(func=ast.Name(id="raise_", ctx=ast.Load()), args=[ast.Call(func=ast.Name(id="StopIteration", ctx=ast.Load()), args=[], keywords=[])], keywords=[])]
+            if len(node.args) == 2 and isinstance(g.iter, (ast.Tuple, ast.List)) and 1 <= len(g.iter.elts) <= 8 and _table_display(g.iter) \
+                    and (norm.is_pure(node.args[1], _PURE_EXT) or (isinstance(node.args[1], ast.Call) and u(node.args[1].func) == "raise_")):
                 rows = []
                 for e in g.iter.elts:
                     mp = _destructure(g.target, e)
                     if mp is None:
-                        return node
+                        return orig
                     rows.append(mp)
                 out = node.args[1]
                 for mp in reversed(rows):
@@ -1833,8 +1842,13 @@ class _FoldConst(ast.NodeTransformer):
                         out = elt
                         continue
                     test = conds[0] if len(conds) == 1 else ast.BoolOp(op=ast.And(), values=conds)
+                    test = _FoldConst().visit(test)
+                    if isinstance(test, ast.Constant) and test.value is True:
+                        out = elt           # a row that always matches: what follows it is never reached
+                        continue
                     out = ast.IfExp(test=test, body=elt, orelse=out)
                 return ast.fix_missing_locations(ast.copy_location(out, node))
+            node = orig
         return node
 
     def visit_Subscript(self, node):
@@ -4271,6 +4285,50 @@ class Canon:
             return b
         return block(stmts)
 
+    def sink_selected_tail(self, stmts):
+        """if C: f = A; t = X  else: f = B; t = Y            if C: A(X, d)  else: B(Y, d)
+           f(t, d)                                     ->
+        the arms only pick names (a callback and what to hand it) for one statement that follows: the statement is written into each
+        arm with the picks in place.  The picked locals are read nowhere else."""
+        def block(b):
+            b = list(b)
+            for s_ in b:
+                for fld in ("body", "orelse", "finalbody"):
+                    bb = getattr(s_, fld, None)
+                    if isinstance(bb, list) and bb and isinstance(bb[0], ast.stmt) and not isinstance(s_, (ast.FunctionDef, ast.AsyncFunctionDef, ast.ClassDef)):
+                        setattr(s_, fld, block(bb))
+            i = 0
+            while i + 1 < len(b):
+                s1, t_ = b[i], b[i + 1]
+                if isinstance(s1, ast.If) and s1.orelse and isinstance(t_, (ast.Expr, ast.Assign, ast.Return)) and isinstance(t_.value, ast.Call) and isinstance(t_.value.func, ast.Name):
+                    def picks(blk):
+                        """trailing `name = <name / constant>` statements of the arm: {name: value} and the rest"""
+                        mp, k = {}, len(blk)
+                        while k > 0 and isinstance(blk[k - 1], ast.Assign) and len(blk[k - 1].targets) == 1 and isinstance(blk[k - 1].targets[0], ast.Name) \
+                                and (isinstance(blk[k - 1].value, (ast.Name, ast.Constant, ast.Lambda)) or norm._attr_chain(blk[k - 1].value) is not None):
+                            mp.setdefault(blk[k - 1].targets[0].id, blk[k - 1].value)
+                            k -= 1
+                        return mp, blk[:k]
+                    pa, ra = picks(s1.body)
+                    pb, rb = picks(s1.orelse)
+                    names = set(pa) & set(pb)
+                    fn_name = t_.value.func.id
+                    used = {n.id for n in ast.walk(t_) if isinstance(n, ast.Name)}
+                    if fn_name in names and set(pa) == set(pb) == (names & used) | (names - used) and names <= used | set() and names:
+                        # the picked names are read only by the statement that follows
+                        total = sum(1 for x in stmts for n in ast.walk(x) if isinstance(n, ast.Name) and n.id in names and isinstance(n.ctx, ast.Load))
+                        here = sum(1 for n in ast.walk(t_) if isinstance(n, ast.Name) and n.id in names and isinstance(n.ctx, ast.Load))
+                        # a pick must not read another pick of the same arm, nor anything the rest of the arm rebinds after it
+                        clean = all(not ({n.id for v in mp.values() for n in ast.walk(v) if isinstance(n, ast.Name)} & set(mp)) for mp in (pa, pb))
+                        if total == here and clean:
+                            s1.body = ra + [ast.fix_missing_locations(ast.copy_location(norm._Subst({k: copy.deepcopy(v) for k, v in pa.items()}).visit(copy.deepcopy(t_)), t_))]
+                            s1.orelse = rb + [ast.fix_missing_locations(ast.copy_location(norm._Subst({k: copy.deepcopy(v) for k, v in pb.items()}).visit(copy.deepcopy(t_)), t_))]
+                            del b[i + 1]
+                            continue
+                i += 1
+            return b
+        return block(stmts)
+
     def sink_record_tail(self, stmts, module):
         """if ..: ..; x = _Rec(a, b)  elif ..: ..; x = _Rec(c)  ..        if ..: ..; return F(a, b, <default>)  elif ..: ..; return F(c, ..)
            return F(x.p, x.q, x.r)                                  ->
@@ -4442,6 +4500,7 @@ class Canon:
         b = self.explicit_base_init(b, module, cls)
         b = self.helper_object_views(b, module, cls)
         b = self.fold_own_bodies(b, module, cls, fn, early=True)
+        b = self.sink_selected_tail(norm.split_parallel_assign(b))
         look = self._lookup(module, cls, fn, set(inline), set(keep), accessors, supers)
         from .genloop import inline_generator_loops, inline_guard_helpers
         b = inline_generator_loops(b, look)       # loops over unknown generator helpers: the helper's loop with the body at its yield
@@ -4460,6 +4519,7 @@ class Canon:
             if ast.dump(ast.Module(body=b_g, type_ignores=[])) != ast.dump(ast.Module(body=b, type_ignores=[])):
                 b = inl.rec(lift_walrus(lift_ifexp(b_g)), inl.depth, (fn.name,))
         b = self.run_on_fresh_records(b, module)
+        b = self.sink_selected_tail(b)          # (a callable picked per arm by an inlined helper)
         # helper objects that only appeared when a helper was inlined (`self._left()` -> `_Half(self.fwd, self.bck)`): named, taken apart
         if any(isinstance(n, ast.Attribute) and isinstance(n.value, ast.Call) and isinstance(n.value.func, ast.Name) and n.value.func.id.startswith("_")
                and n.value.func.id in module.classes for s_ in b for n in ast.walk(s_)):
